@@ -158,11 +158,15 @@ func init() {
 		Bounds:  map[string]string{"quick": "IdP endpoint with 0..1 pre-existing query parameter; relay state any string over [A-Za-z0-9._~-] plus space & = + %; signing on/off; POST vs redirect flavour; document an arbitrary tree", "thorough": "same"},
 		Outside: []string{"DEFLATE and base64 encoders themselves (inverse-pair contracts)", "relay states outside the stated alphabet (QueryEscape is defined by replacement only on it)", "AuthRedirect (net/http)"},
 	})
+	genuine := []HarnessSpec{
+		{Name: "VH_C08_genuine", Replay: "native", Unwind: 400, QuickOnly: true},
+		{Name: "VH_C08_genuine_deep", Replay: "native", Unwind: 400, Thorough: true, MaxPaths: 3000000},
+	}
 	retrieve := []HarnessSpec{
 		{Name: "VH_C08_retrieve", Replay: "native", Unwind: 400, Panics: true, QuickOnly: true},
 		{Name: "VH_C08_retrieve_deep", Replay: "native", Unwind: 400, Panics: true, Thorough: true},
 	}
-	reg(&PropSpec{ID: "C08", Harnesses: append(append([]HarnessSpec{{Name: "VH_C08_values", Replay: "native", Panics: true}}, retrieve...), ssoNoDeep...),
+	reg(&PropSpec{ID: "C08", Harnesses: append(append(append([]HarnessSpec{{Name: "VH_C08_values", Replay: "native", Panics: true}}, genuine...), retrieve...), ssoNoDeep...),
 		Bounds:  map[string]string{"quick": "RetrieveAssertionInfo / ValidateEncodedResponse over the SSO scenario space (0..2 children), one attribute with one value per assertion; accessor helpers on the resulting map with symbolic names", "thorough": "0..3 children"},
 		Outside: []string{"invariance under serialisation (comments, CDATA, character references, white space, canonicalisation variants, digest / signature algorithm support) is etree / encoding/xml / goxmldsig behaviour and is NOT decided here: the claim covers the repo-owned decoding, extraction and accessor logic over the decoded tree only"}})
 	for _, id := range []string{"C01", "C03", "C04", "C05", "C06", "C09"} {
